@@ -508,6 +508,7 @@ func main() {
 
 	// ---------- 2. searches and predicates ----------
 	doSearches(rng, thorough)
+	doComparePairs(rng, thorough) // prefixes with every length difference, both directions; through the wrappers too
 	// ---------- 3. comparators ----------
 	doComparators(rng, thorough)
 
